@@ -20,12 +20,16 @@ import (
 
 var rtSeq int
 var rtL int
+var rtSmall bool // inside composite kinds: leaves of one symbolic byte, lists of 0..1
 
 func rtName(p string) string { rtSeq++; return p + strconv.Itoa(rtSeq) }
 
 func rtMeta() *ast.Meta { return &ast.Meta{Token: token.Token{Line: 1, Position: 1}} }
 
 func rtStr() string {
+	if rtSmall {
+		return nondet.StringIn(rtName("s"), 1, 0, 0x7f)
+	}
 	n := nondet.IntRange(rtName("n"), 0, rtL)
 	return nondet.StringIn(rtName("s"), n, 0, 0x7f)
 }
@@ -33,6 +37,9 @@ func rtStr() string {
 // rtWord is a non-empty identifier-like string (identifiers, operators and
 // keywords written in a source file are never empty).
 func rtWord() string {
+	if rtSmall {
+		return nondet.StringIn(rtName("w"), 1, 0, 0x7f)
+	}
 	n := nondet.IntRange(rtName("n"), 1, rtL+1)
 	return nondet.StringIn(rtName("w"), n, 0, 0x7f)
 }
@@ -54,7 +61,18 @@ func rtFloat() *ast.Float {
 
 var rtExprKinds = []string{"ident", "string", "ip", "rtime", "bool", "integer", "float", "grouped", "prefix", "postfix", "infix", "ifexpr", "call"}
 
+// rtLeaf is an identifier or a string.
+func rtLeaf() ast.Expression {
+	if nondet.Bool(rtName("leafstr")) {
+		return rtString()
+	}
+	return rtIdent()
+}
+
 func rtExpr(depth int) ast.Expression {
+	if rtSmall {
+		return rtLeaf()
+	}
 	k := 7
 	if depth > 0 {
 		k = len(rtExprKinds)
@@ -90,7 +108,11 @@ func rtExpr(depth int) ast.Expression {
 }
 
 func rtArgs(depth int) []ast.Expression {
-	n := nondet.IntRange(rtName("argc"), 0, 2)
+	max := 2
+	if rtSmall {
+		max = 1
+	}
+	n := nondet.IntRange(rtName("argc"), 0, max)
 	args := []ast.Expression{}
 	for i := 0; i < n; i++ {
 		args = append(args, rtExpr(depth))
@@ -103,7 +125,7 @@ func rtOp() *ast.Operator { return &ast.Operator{Meta: rtMeta(), Operator: rtWor
 func rtBlock(n int) *ast.BlockStatement {
 	b := &ast.BlockStatement{Meta: rtMeta(), Statements: []ast.Statement{}}
 	for i := 0; i < n; i++ {
-		b.Statements = append(b.Statements, &ast.UnsetStatement{Meta: rtMeta(), Ident: rtIdent()})
+		b.Statements = append(b.Statements, &ast.UnsetStatement{Meta: rtMeta(), Ident: &ast.Ident{Meta: rtMeta(), Value: nondet.StringIn(rtName("u"), 1, 0, 0x7f)}})
 	}
 	return b
 }
@@ -111,9 +133,9 @@ func rtBlock(n int) *ast.BlockStatement {
 func rtSymBlock() *ast.BlockStatement { return rtBlock(nondet.IntRange(rtName("blk"), 0, 2)) }
 
 func rtCase(withTest bool) *ast.CaseStatement {
-	c := &ast.CaseStatement{Meta: rtMeta(), Statements: rtSymBlock().Statements, Fallthrough: nondet.Bool(rtName("ft"))}
+	c := &ast.CaseStatement{Meta: rtMeta(), Statements: rtBlock(nondet.IntRange(rtName("blk"), 0, 1)).Statements, Fallthrough: nondet.Bool(rtName("ft"))}
 	if withTest {
-		c.Test = &ast.InfixExpression{Meta: rtMeta(), Operator: rtWord(), Right: rtString()}
+		c.Test = &ast.InfixExpression{Meta: rtMeta(), Operator: nondet.StringIn(rtName("o"), 1, 0, 0x7f), Right: rtString()}
 	}
 	return c
 }
@@ -167,13 +189,18 @@ func rtStmt(kind string, depth int) ast.Statement {
 		return &ast.GotoDestinationStatement{Meta: rtMeta(), Name: rtIdent()}
 	case "if":
 		kw := []string{"if", "else if", "elseif", "elsif"}
-		s := &ast.IfStatement{Meta: rtMeta(), Keyword: "if", Condition: rtExpr(depth), Consequence: rtSymBlock(), Another: []*ast.IfStatement{}}
+		var cond ast.Expression = rtIdent()
+		if depth > 0 {
+			cond = rtExpr(depth - 1)
+		}
+		oneOrNone := func() *ast.BlockStatement { return rtBlock(nondet.IntRange(rtName("blk"), 0, 1)) }
+		s := &ast.IfStatement{Meta: rtMeta(), Keyword: "if", Condition: cond, Consequence: oneOrNone(), Another: []*ast.IfStatement{}}
 		na := nondet.IntRange(rtName("another"), 0, 2)
 		for i := 0; i < na; i++ {
-			s.Another = append(s.Another, &ast.IfStatement{Meta: rtMeta(), Keyword: kw[1+nondet.Choice(rtName("kw"), 3)], Condition: rtExpr(0), Consequence: rtSymBlock(), Another: []*ast.IfStatement{}})
+			s.Another = append(s.Another, &ast.IfStatement{Meta: rtMeta(), Keyword: kw[1+nondet.Choice(rtName("kw"), 3)], Condition: rtIdent(), Consequence: rtBlock(0), Another: []*ast.IfStatement{}})
 		}
 		if nondet.Bool(rtName("haselse")) {
-			s.Alternative = &ast.ElseStatement{Meta: rtMeta(), Consequence: rtSymBlock()}
+			s.Alternative = &ast.ElseStatement{Meta: rtMeta(), Consequence: oneOrNone()}
 		}
 		return s
 	case "import":
@@ -189,7 +216,11 @@ func rtStmt(kind string, depth int) ast.Statement {
 		}
 		return r
 	case "switch":
-		s := &ast.SwitchStatement{Meta: rtMeta(), Control: &ast.SwitchControl{Meta: rtMeta(), Expression: rtExpr(depth)}, Default: -1}
+		var ctl ast.Expression = rtIdent()
+		if depth > 0 {
+			ctl = rtExpr(depth - 1)
+		}
+		s := &ast.SwitchStatement{Meta: rtMeta(), Control: &ast.SwitchControl{Meta: rtMeta(), Expression: ctl}, Default: -1}
 		nc := nondet.IntRange(rtName("cases"), 0, 2)
 		for i := 0; i < nc; i++ {
 			s.Cases = append(s.Cases, rtCase(true))
@@ -226,9 +257,11 @@ func rtStmt(kind string, depth int) ast.Statement {
 		for i := 0; i < n; i++ {
 			p := &ast.BackendProperty{Meta: rtMeta(), Key: rtIdent()}
 			if nondet.Bool(rtName("probe")) {
-				p.Value = &ast.BackendProbeObject{Meta: rtMeta(), Values: []*ast.BackendProperty{{Meta: rtMeta(), Key: rtIdent(), Value: rtExpr(0)}}}
-			} else {
+				p.Value = &ast.BackendProbeObject{Meta: rtMeta(), Values: []*ast.BackendProperty{{Meta: rtMeta(), Key: rtIdent(), Value: rtLeaf()}}}
+			} else if i == 0 {
 				p.Value = rtExpr(0)
+			} else {
+				p.Value = rtLeaf()
 			}
 			b.Properties = append(b.Properties, p)
 		}
@@ -238,9 +271,11 @@ func rtStmt(kind string, depth int) ast.Statement {
 		n := nondet.IntRange(rtName("props"), 0, 2)
 		for i := 0; i < n; i++ {
 			if nondet.Bool(rtName("isbackend")) {
-				d.Properties = append(d.Properties, &ast.DirectorBackendObject{Meta: rtMeta(), Values: []*ast.DirectorProperty{{Meta: rtMeta(), Key: rtIdent(), Value: rtExpr(0)}}})
-			} else {
+				d.Properties = append(d.Properties, &ast.DirectorBackendObject{Meta: rtMeta(), Values: []*ast.DirectorProperty{{Meta: rtMeta(), Key: rtIdent(), Value: rtLeaf()}}})
+			} else if i == 0 {
 				d.Properties = append(d.Properties, &ast.DirectorProperty{Meta: rtMeta(), Key: rtIdent(), Value: rtExpr(0)})
+			} else {
+				d.Properties = append(d.Properties, &ast.DirectorProperty{Meta: rtMeta(), Key: rtIdent(), Value: rtLeaf()})
 			}
 		}
 		return d
@@ -265,10 +300,15 @@ func rtStmt(kind string, depth int) ast.Statement {
 		}
 		n := nondet.IntRange(rtName("items"), 0, 2)
 		for i := 0; i < n; i++ {
-			t.Properties = append(t.Properties, &ast.TableProperty{Meta: rtMeta(), Key: rtString(), Value: rtExpr(0), HasComma: nondet.Bool(rtName("comma"))})
+			var v ast.Expression = rtLeaf()
+			if i == 0 {
+				v = rtExpr(0)
+			}
+			t.Properties = append(t.Properties, &ast.TableProperty{Meta: rtMeta(), Key: rtString(), Value: v, HasComma: nondet.Bool(rtName("comma"))})
 		}
 		return t
 	default: // "nested": statements inside blocks inside a subroutine
+		rtSmall = true
 		inner := rtStmt(RtKinds[nondet.Choice(rtName("inner"), 23)], 0)
 		blk := &ast.BlockStatement{Meta: rtMeta(), Statements: []ast.Statement{inner, &ast.BlockStatement{Meta: rtMeta(), Statements: []ast.Statement{&ast.EsiStatement{Meta: rtMeta()}}}}}
 		return &ast.SubroutineDeclaration{Meta: rtMeta(), Name: rtIdent(), Block: blk}
@@ -281,6 +321,7 @@ func rtStmt(kind string, depth int) ast.Statement {
 // expressions up to depth D (C19-b).
 func VerifRoundTrip() {
 	rtSeq = 0
+	rtSmall = false
 	rtL = nondet.Param("L")
 	kind := RtKinds[nondet.Param("KIND")]
 	st := rtStmt(kind, nondet.Param("D"))
@@ -308,6 +349,7 @@ func VerifRoundTrip() {
 // their number, order and content.
 func VerifRoundTripMany() {
 	rtSeq = 0
+	rtSmall = true
 	rtL = nondet.Param("L")
 	n := nondet.IntRange("count", 0, 3)
 	var sts []ast.Statement
